@@ -26,6 +26,10 @@ CHECKS = {
    "stateless DFS over thread schedules of the real implementation inside a synctest bubble with iterative preemption bounding (bound 2 quick / 3 thorough); points at every non-trivial RWMutex operation, internal page write/truncate and client WAL write",
    "A snapshot / export / GET /export thread, a writer connection (two transactions) and a checkpointer connection (WAL: PASSIVE then RESTART; thorough adds LiteFS's own recovery) run over one real DB in both journal modes; every schedule with at most the stated number of preemptions is executed from scratch (about 5x10^4 schedules quick); whenever the snapshot/export returns success its bytes must equal the reference image of exactly the position it reports (for GET /export: of some committed position).",
    "Cooperative scheduler: data races below lock granularity are not visible; timers fire only when no thread is enabled; one writer connection.", "§4 C10"),
+ "C11": ("model_checking", "E1-closure+E2-schedules",
+   "explicit-state BFS to closure over the real lock table (two protocol-following owners + LiteFS's internal owner) compared with a POSIX byte-range lock specification; plus schedule DFS with a write-section monitor",
+   "Part A: from the empty table every request the rollback-mode (PENDING/RESERVED/SHARED) or WAL-mode (DMS/WRITE/CKPT/RECOVER/READ0-4, single and range requests) protocol automaton of two owners can issue, every TryAcquireWriteLock/release of the internal owner and WAL header/frame/data writes are executed on one real DB until no new lock-table state appears (about 4.6x10^4 states, 8.8x10^5 transitions in WAL mode); each outcome, the resulting table, the all-or-nothing behaviour of the internal attempt, the checkpoint-gating rule, the exclusion invariant and the WAL write guard are compared with the specification. Part B: all schedules up to 2 (thorough 3) preemptions of an application transaction or reader against Store.Recover and against a replicated apply, with a monitor in every page write (internal writes only under the full exclusive write set held by a non-client owner).",
+   "One lock per SQLite lock byte; partial grants of refused multi-byte requests follow LiteFS's order; WAL write guard checked as 'no owner holds WRITE exclusively'. Cooperative scheduler limits as in C10.", "§4 C11"),
  "C12": ("model_checking", "E1-closure+fake-clock",
    "explicit-state BFS to closure over the real RWMutex (private-state key) vs POSIX one-byte model; exhaustive blocking-variant matrix on the synctest fake clock",
    "Every operation from every reachable state of one real RWMutex with four guards is executed and compared with the reader/writer rules (20 states x 20 operations, closure reached); blocking Lock/RLock are decided for every holder/waiter/event/timing combination on a fake clock. Complete for the stated alphabet, which is the property's own quantifier.",
